@@ -548,8 +548,8 @@ pub fn suites() -> Vec<Suite> {
     },
     Suite {
         name: "c08-typed",
-        rule: "numeric text typed through set_user_input: sign, optional $, 0..20 integer digits, optional fraction, exponent magnitudes around 0, 300..312, 320..1000, 1e3..1e5, optional %, plus a corpus (1e999, 1.7976931348623159e308, inf, nan, malformed exponents); cell kind and value bits compared with the model (Eval/Store.lean::typedCell over the exact decimal->double conversion Basic/F64.lean); oracle: no non-finite number cell; non-trivial = a number was stored",
-        modelled: true,
+        rule: "numeric text typed through set_user_input: sign, optional $, 0..20 integer digits, optional fraction, exponent magnitudes around 0, 300..312, 320..1000, 1e3..1e5, optional %, plus a corpus (1e999, 1.7976931348623159e308, inf, nan, malformed exponents); oracle: no non-finite number cell after evaluation (the recogniser itself is tied exactly by C19); non-trivial = a number was stored",
+        modelled: false, // the recogniser is modelled exactly by C19 (Text/Number.lean); here only the finiteness oracle is judged
         gen: gen_typed,
         eval: eval_typed,
         exhaustive: never,
